@@ -3,7 +3,10 @@
 //! case:   <root>;<tree>;<op>;<op>;...
 //!   root  = `-` (no workspace root) | `/` (the scratch top directory) | `/a/b` (a directory below it)
 //!   tree  = entries of the scratch top directory, comma separated; entry = `name` (file) | `name(entries)` (dir)
-//!   names are over [A-Za-z0-9_.]; paths are `/`-prefixed, `/`-separated, relative to the scratch top
+//!   names are over [A-Za-z0-9_.~]; paths are `/`-prefixed, `/`-separated, relative to the scratch top;
+//!   `~1`..`~5` stand for a space, `%`, `#`, `日` and `+` (caseless characters that a URI percent-encodes or that are
+//!   special in one): the harness decodes them before touching the file system or the server and encodes them again
+//!   in every path it reports, so that the model sees plain two-character names
 //!   op    = F:<path>            create a file (and the directories above it)
 //!         | R                   ProjectManager::index_files
 //!         | C:<path>:<version>  notify_document_changed with text `class V<version> (aObject)`
@@ -57,7 +60,8 @@ fn materialise(dir: &Path, s: &[u8], i: &mut usize) {
     loop {
         let start = *i;
         while *i < s.len() && s[*i] != b',' && s[*i] != b'(' && s[*i] != b')' { *i += 1; }
-        let name = std::str::from_utf8(&s[start..*i]).unwrap();
+        let name = decode(std::str::from_utf8(&s[start..*i]).unwrap());
+        let name = name.as_str();
         if *i < s.len() && s[*i] == b'(' {
             let d = dir.join(name);
             fs::create_dir(&d).unwrap();
@@ -81,16 +85,30 @@ fn write_file(p: &Path) {
     let _ = fs::write(p, format!("class a{} (aObject)\n", cls));
 }
 
+const ESCAPES: [(&str, &str); 5] = [("~1", " "), ("~2", "%"), ("~3", "#"), ("~4", "日"), ("~5", "+")];
+
+fn decode(s: &str) -> String {
+    let mut r = s.to_string();
+    for (e, c) in ESCAPES.iter() { r = r.replace(e, c); }
+    r
+}
+
+fn encode(s: &str) -> String {
+    let mut r = s.to_string();
+    for (e, c) in ESCAPES.iter() { r = r.replace(c, e); }
+    r
+}
+
 fn abs(top: &Path, rel: &str) -> PathBuf {
     let mut p = top.to_path_buf();
-    for c in rel.split('/').filter(|c| !c.is_empty()) { p.push(c); }
+    for c in rel.split('/').filter(|c| !c.is_empty()) { p.push(decode(c)); }
     p
 }
 
 fn rel(top: &str, key: &str) -> String {
     match key.strip_prefix(top) {
         Some("") => "/".to_string(),
-        Some(r) if r.starts_with('/') => r.to_string(),
+        Some(r) if r.starts_with('/') => encode(r),
         _ => format!("!{}", key),
     }
 }
@@ -168,7 +186,7 @@ pub fn run_case(line: &str) -> String {
             "P" => match pm.generate_document_symbols(&uri()) { Ok(_) => String::new(), Err(_) => "ERR".to_string() },
             "S" => match pm.notify_document_saved(&uri(), &pool) { Ok(()) => String::new(), Err(_) => "ERR".to_string() },
             "X" => { pm.doc_service.notify_document_closed(&uri()); String::new() }
-            "L" => match pm.doc_service.get_uri_for_class(a1) {
+            "L" => match pm.doc_service.get_uri_for_class(&decode(a1)) {
                 Ok(u) => match u.to_file_path() { Ok(p) => rel(&top_s, &p.to_string_lossy()), Err(_) => format!("!{}", u) },
                 Err(_) => "-".to_string(),
             },
